@@ -120,6 +120,12 @@ register('C03', [
 ], [
     'RFC3339 formatting and JSON serialisation, the one-unit rounding of non-integer values (inputs are integer-valued), place tags (get_job_tag), reloads / vehicle breaks written by break_writer.rs, clustering (commute, parking), stops shared by several activities at one location in whole-tour obligations (covered only by the single step), haversine routing approximation',
 ])
+register('C12', [
+    'kernel-level claim on three of the six rule groups of the checker (vehicle load assignment, limits, routing/statistics): the rule functions are executed from the MIR of vrp-pragmatic linked with vrp-core',
+    'context look-ups are environment answers from the template: get_vehicle / get_vehicle_shift / get_vehicle_profile / get_location_index succeed, get_matrix_data answers an uninterpreted function of the two indices, get_demand answers the demand kind and amounts of the activity (pickup and delivery of one dynamic job carry equal amounts), get_activity_type succeeds, is_reload_stop = false; parse_time / format_time are inverse stubs carrying numbers; message formatting is an empty stub',
+], [
+    'rule groups assignment, relations, breaks; check_resource_consumption (HashMap-keyed); reload intervals, transit stops, clustering (commute/parking); CheckerContext::new and the job index (std HashMap); JSON parsing; the claim "accepts every solution the solver emits" (needs solver runs)',
+])
 register('C05', [
     'mechanism claim: the cache-computing functions are total functions of the tour alone (history independence proved per output) and equal the reference recomputation',
 ], [
